@@ -112,6 +112,7 @@ v('c08-f17-reverted', 'C08', 'C08/template-name-substitution-anchored', 'list_so
 v('c08-f18-reverted', 'C08', 'C08/template-prefix-tests-anchored', 'Iterator', ('data/cpp/template/function/_method_body.j2', "{%- elif return_type.startswith('Iterator<') %}", "{%- elif return_type.startswith('Iterator') %}"))
 v('c04-f23-reverted', 'C04', 'C04/load-unload-pairing', 'rollback', ('rogw/tranp/module/modules.py', "				self.unload(module_path)\n				raise\n", "				raise\n"))
 v('c19-f25-reverted', 'C19', 'C19/error-types-and-curry', 'assert-invoke', ('rogw/tranp/lang/di.py', "		allow_types = [type(arg) for arg, expect_type in zip(remain_args, expect_types) if isinstance(arg, expect_type)]\n		if len(expect_types) != len(remain_args) or len(expect_types) != len(allow_types):", "		allow_types = [type(arg) for index, arg in enumerate(remain_args) if isinstance(arg, expect_types[index])]\n		if len(expect_types) != len(allow_types):"))
+v('c03-f26-reverted', 'C03', 'C03/template-positions-matched-by-index', 'candidate-accept', ('rogw/tranp/semantics/reflection/helper/template.py', "			if diff >= 0 and DSN.left(actual_elems, schema_counts) != schema_elems:\n				continue\n", ""))
 # ---- C14 / C15 ----
 v('c14-key-renamed', 'C14', 'C14/record-keys-agree', 'Reflection', ('rogw/tranp/semantics/reflection/serializer.py', "				'origin': symbol.types.fullyname,", "				'org': symbol.types.fullyname,"))
 v('c14-via-from-origin', 'C14', 'C14/field-wiring', 'Options.via', ('rogw/tranp/semantics/reflection/serializer.py', "via = db[data['via']] if data['origin'] != data['via'] else None", "via = db[data['origin']] if data['origin'] != data['via'] else None"))
